@@ -85,7 +85,6 @@ class RowCanFit:
         "an-empty-row-takes-anything": lambda self, area, result:
             implies(len(self._contents) == 0 and self.start == 0, result),
     }
-    known = {"C19-F1": (spanning_area_checked_against_first_only, ["fits-only-if-disjoint-from-every-content"])}
     returns = Bool
 
 
@@ -108,8 +107,6 @@ class RowAdd:
             forall(range(0, len(old.self._contents)), lambda j: not areas_overlap(area, old.self._contents[j])),
         "row-invariant-kept": lambda self: row_inv(self),
     }
-    known = {"C19-F1": (spanning_area_checked_against_first_only,
-                        ["no-overlap-with-any-earlier-content", "row-invariant-kept"])}
 
 
 @spec
@@ -143,7 +140,6 @@ class Pack:
                 for row in result for i in range(len(row._contents)) for j in range(len(row._contents)) if i < j),
         "no-empty-row": lambda areas, result: all(len(row._contents) >= 1 for row in result),
     }
-    known = {"C19-F1": (later_spanning_area, ["no-two-areas-of-a-row-overlap"])}
 
 
 # ---- adjust_cross_origin_area ------------------------------------------------------------------------
@@ -223,4 +219,3 @@ class AdjustCrossOriginProto:
                       if feature.core_start >= feature.start else
                       area.start == area.end and result.start == feature.core_start and result.end == feature.core_end))),
     }
-    known = {"C19-F3": core_in_upper_part_with_small_coordinates, "C19-F4": core_in_lower_part_with_large_coordinates}
